@@ -24,6 +24,7 @@ FINDING_DEV = {
     "KF-C02-13": "Rtf!RawNewlineIsText",
     "KF-C02-14": "Odp!TextBoxesAfterBody",
     "KF-C02-15": "Ppt!TextBoxesAfterBody",
+    "KF-C02-16": "Ppt!PlaceholderLineFilter",
 }
 
 
@@ -184,6 +185,85 @@ def rtf_strip_model(ctx):
         ctx.ev.nontrivial(("rtfstrip", t["raw"]))
 
 
+# ----------------------------------------------------------------------------- PPT text cleaning: line-level model
+def _ppt_clean_job(cases):
+    from ..repo import activate
+    activate()
+    import warnings
+    warnings.simplefilter("ignore")
+    from sharepoint2text.parsing.extractors.ms_legacy import ppt_extractor as mod
+    from ..docmodel import TOKEN_RE, word
+    fn = getattr(mod, "_clean_text", None)
+    if fn is None:
+        return {"skip": "ppt_extractor._clean_text not found"}
+    seps = ["\r", "\n", "\x0b", "\x0c"]
+    out = []
+    for lines in cases:
+        parts = []
+        for k, i in lines:
+            w_ = word(i)
+            parts.append({"W": w_, "WW": w_ + "   \t " + word(i + 50), "CTRL": w_[:3] + "\x01" + w_[3:], "BLANK": "  ",
+                          "CLICK": "Click to edit " + w_, "PPTMARK": "___PPT10 " + w_, "STAR": "*", "STARW": "* " + w_,
+                          "OUTLINE": w_ + " Outline Level"}[k])
+        text = "".join(p_ + (seps[(j + len(lines)) % 4] if j + 1 < len(parts) else "") for j, p_ in enumerate(parts))
+        try:
+            res = fn(text)
+            obs = [[int(m.group(1) or m.group(2) or m.group(3)) for m in TOKEN_RE.finditer(ln)] for ln in res.split("\n")]
+            out.append({"out": [o for o in obs if o], "raw": res[:200]})
+        except Exception as e:
+            out.append({"exc": f"{type(e).__name__}: {e}"[:200]})
+    return {"obs": out}
+
+
+def ppt_clean_model(ctx):
+    """PptClean.tla: theorem (no line of slide text is lost), sensitivity run for the as-built placeholder filter, binding of
+    ppt_extractor._clean_text to the model on every sequence of <= 4 line kinds."""
+    from ..docrun import from_tla
+    from ..docsuite import validate_with_findings
+    from ..tlaval import iter_dump, to_tla
+    from ..tlc import MachineryError, run_tlc
+    n = 5 if ctx.thorough else 4
+    cfg = (f"SPECIFICATION Spec\nCONSTANTS WalkDev = {{}}\n MaxLines = {n}\nINVARIANT Inv_StepAgreesWithFunction\n"
+           "INVARIANT Inv_NothingLost\nPROPERTY Prop_Terminates\n")
+    r = run_tlc("PptClean", cfg, scratch=ctx.scratch, expect_fail=True, heap="6g")
+    ctx.ev.tlc(f"PptClean MaxLines={n}: the words of every line of a text atom come out once, in order", r)
+    if r.violated:
+        ctx.v.violation(what=f"PptClean.tla: the strict model violates {r.violated}", observed=r.output[-1500:])
+    rs = run_tlc("PptClean", cfg.replace("WalkDev = {}", 'WalkDev = {"Ppt!PlaceholderLineFilter"}'), scratch=ctx.scratch, expect_fail=True)
+    ctx.ev.tlc("PptClean sensitivity: the as-built placeholder filter must violate Inv_NothingLost", rs, note="expected violation")
+    if not rs.violated:
+        raise MachineryError("PptClean sensitivity run did not fail")
+    dump = ctx.scratch / "pptclean.dump"
+    rg = run_tlc("PptClean", f"SPECIFICATION GenSpec\nCONSTANTS WalkDev = {{}}\n MaxLines = {n}\n", scratch=ctx.scratch, dump=dump)
+    ctx.ev.tlc("PptClean GenSpec: line-kind sequences", rg)
+    cases = sorted((from_tla(st["lines"]) for st in iter_dump(dump)), key=lambda c: json.dumps(c))
+    if len(cases) != rg.distinct:
+        raise MachineryError(f"PptClean dump {len(cases)} != {rg.distinct}")
+    cases = [c for c in cases if c]
+    from concurrent.futures import ProcessPoolExecutor
+    chunks = [cases[k:k + 2000] for k in range(0, len(cases), 2000)]
+    with ProcessPoolExecutor(8) as ex:
+        obs = list(ex.map(_ppt_clean_job, chunks))
+    traces = []
+    for ch, ob in zip(chunks, obs):
+        if "skip" in ob:
+            ctx.log("ppt-clean binding skipped: " + ob["skip"])
+            return
+        for lines, x in zip(ch, ob["obs"]):
+            if "exc" in x:
+                ctx.v.violation(what=f"ppt _clean_text raised on {lines}: {x['exc']}", case={"lines": lines})
+                continue
+            traces.append({"id": f"pptclean:{len(traces)}", "hdr": {"fmt": "ppt", "doc": {"lines": lines}}, "raw": x["raw"],
+                           "ev": [{"a": "Clean", "lines": lines, "out": x["out"]}]})
+
+    def cfgfn(dev):
+        return f"SPECIFICATION TraceSpec\nCONSTANTS WalkDev = {to_tla(set(dev))}\nCONSTRAINT TraceAccept\n"
+    validate_with_findings(ctx, "PptCleanTrace", traces, {"KF-C02-16": "Ppt!PlaceholderLineFilter"},
+                           lambda t, e: f"ppt _clean_text differs from PptClean.tla: lines {json.dumps(e['lines'])[:200]} -> {t['raw']!r}",
+                           lambda t: "ppt_extractor.py:_clean_text", cfg=cfgfn)
+    ctx.ev.replayed(len(traces))
+
+
 def run(ctx):
     ev = ctx.ev
     rng = random.Random(ctx.seed)
@@ -207,6 +287,7 @@ def run(ctx):
     ev.replayed(len(traces))
     docx_walk_model(ctx, traces)
     rtf_strip_model(ctx)
+    ppt_clean_model(ctx)
     ev.set(rule="document shapes enumerated by TLC (DocGen: all 1-block flow documents, 2-block documents "
                 + ("all" if ctx.thorough else "seeded sample") + "; DocGen2: decks, workbooks, paged documents up to 3 units) "
                 "x every format that can express them; non-trivial = distinct (format, document) with at least one "
